@@ -101,6 +101,18 @@ def n_cols(q):
     return len(q["aggs"]) if q["kind"] == "agg" else len(q["cols"])
 
 
+def has_pred(p):
+    return p is not None and p.get("op") != "true"
+
+
+def has_field_pred(p):
+    if p is None:
+        return False
+    if p.get("op") in ("and", "or"):
+        return has_field_pred(p.get("a")) or has_field_pred(p.get("b"))
+    return p.get("op") == "field"
+
+
 def explain(case, f):
     """ids of the known findings whose signature the failing (query, configuration) satisfies"""
     q, ft, cf = case["query"], case["features"], f["config"]
@@ -117,15 +129,24 @@ def explain(case, f):
         ids.append("C08-fill-previous-multicolumn")
     if fill == "prev" and desc and ft["empty_bucket"]:
         ids.append("C08-fill-previous-desc")
-    if q["kind"] == "agg" and desc and any(a["fn"] in ("first", "last") for a in q["aggs"]):
+    # first()/last() under ORDER BY time DESC: positional readers / reducers of the store (C09-desc-firstlast-shortcut and
+    # C09-desc-firstlast-rowpath). A statement without GROUP BY, time bucket, predicate and time bound is executed
+    # ascending by the planner and is not affected.
+    bare = not q.get("group") and not iv and not has_pred(q.get("pred")) and not q.get("has_tmin") and not q.get("has_tmax")
+    if q["kind"] == "agg" and desc and any(a["fn"] in ("first", "last") for a in q["aggs"]) and not bare:
         ids.append("C08-desc-first-last")
     if q["kind"] == "agg" and desc and ft.get("selector_tie"):
         ids.append("C08-desc-selector-tie")
     if q["kind"] == "plain" and ft["has_tie"] and f.get("tie_only"):
         ids.append("C08-tie-order")
     small = 0 < inner < 1024
-    if iv and ((ft["layout"] == "ooo" and (small or desc)) or (desc and small)):
+    # empty piece of a series handed to the aggregate cursor (fileLoopCursor.ReadAggDataNormal): needs a small batch size
+    # and a stored row without a value for an aggregated field
+    if iv and small and ft.get("null_agg_field"):
         ids.append("C08-time-window-agg-store")
+    # descending scan over overlapping sources: the 'last file' flag of fileLoopCursor (C02-desc-filecursor-lastfile)
+    if q["kind"] == "agg" and desc and ft["layout"] == "ooo" and (iv or has_field_pred(q.get("pred"))):
+        ids.append("C08-desc-agg-overlapping-files")
     if (q["kind"] == "agg" and n_cols(q) >= 2 and any(a["fn"] in ("first", "last") for a in q["aggs"])
             and len({a["f"] for a in q["aggs"]}) >= 2 and ft.get("multi_series_group") and cf.get("phase") == "mem"):
         ids.append("C08-multicolumn-first-last-across-series")
@@ -315,9 +336,9 @@ def op_more(ck, out, coq_ok):
     return cov
 
 
-PRIORITY = ["C08-time-window-agg-store", "C08-desc-first-last", "C08-multicolumn-first-last-across-series", "C08-fill-previous-desc",
-            "C08-desc-selector-tie", "C08-tie-order", "C08-limit-prune-time-range",
-            "C08-fill-split-path", "C08-fill-previous-multicolumn", "C08-fill-null-count-fastpath", "C08-fill-previous-single-row-group"]
+PRIORITY = ["C08-fill-previous-desc", "C08-desc-selector-tie", "C08-tie-order", "C08-limit-prune-time-range", "C08-fill-split-path",
+            "C08-desc-agg-overlapping-files", "C08-time-window-agg-store", "C08-desc-first-last", "C08-multicolumn-first-last-across-series",
+            "C08-fill-previous-multicolumn", "C08-fill-null-count-fastpath", "C08-fill-previous-single-row-group"]
 
 FINDING_TEXT = {
     "C08-fill-split-path": "GROUP BY time() with fill(): answer depends on inner_chunk_size once the filled rows exceed 2x the chunk size "
@@ -335,8 +356,12 @@ FINDING_TEXT = {
     "C08-limit-prune-time-range": "SELECT * .. WHERE time >= t LIMIT n over more than n+offset series: series are pruned by the minimum time of "
                                   "their file chunk, not clipped to t, so the series holding the first rows can be discarded",
     "C08-tie-order": "plain selection: order of rows with equal timestamps from different series changes with inner_chunk_size / limit",
-    "C08-time-window-agg-store": "GROUP BY time() aggregates over series stored in several sources are wrong for small inner_chunk_size when the "
-                                 "query is descending or the files overlap (out-of-order writes), and for descending + overlapping files at any size",
+    "C08-time-window-agg-store": "GROUP BY time() aggregate with a small inner_chunk_size over rows that lack the aggregated field: an empty piece "
+                                 "of one series makes the store-side aggregate cursor continue its pending time window into the next series / file "
+                                 "(values counted twice or in the wrong partial result)",
+    "C08-desc-agg-overlapping-files": "descending aggregate (time buckets or field filter) over overlapping sources (out-of-order files / memtable): "
+                                      "the newest ordered file is treated as the last one and swallows all out-of-order rows (same root cause as "
+                                      "C02-desc-filecursor-lastfile)",
     "C08-multicolumn-first-last-across-series": "first()/last() next to an aggregate of another field, group fed by several series, data partly "
                                                 "in the memtable: the value of the wrong series is returned (right after the flush)",
 }
@@ -450,13 +475,18 @@ def main(ck):
     # ---- direct oracle verdicts
     known_counts = {}
     unexplained = []
+    # a finding split off another one by root cause is reported under the old id until the central known_findings.json
+    # (merged from the fragments by tools/merge.py) knows the new id
+    known_ids = {x["id"] for x in ck.findings}
+    alias = {"C08-desc-agg-overlapping-files": "C08-time-window-agg-store"}
     for c in cases:
         for f in c["failures"]:
-            ids = explain(c, f)
+            ids = [i if i in known_ids else alias.get(i, i) for i in explain(c, f)]
             live = [i for i in ids if ck.match_finding(i)]
             if live:
-                # a failure matching several signatures is charged to the finding that is not repaired by fix.patch /
-                # fix_desc_split.patch, so that on a patched tree the repaired findings' lines disappear
+                # a failure matching several signatures is charged to the first matching finding of PRIORITY: findings without
+                # a repair first, then those with a proposed patch (fix2.patch, props/C02/fix2.patch), then the ones already
+                # repaired in /repo - so that on a patched tree the repaired findings' lines disappear
                 i = min(live, key=lambda x: PRIORITY.index(x) if x in PRIORITY else -1)
                 known_counts[i] = known_counts.get(i, 0) + 1
             else:
